@@ -797,20 +797,23 @@ theorem createIter_some (c : Core) (k : GetKind) (t : Id) (extra : List Addr) (n
       exact key _ _ _ _ hx
 
 /-- a relation between the lookup registry before and after, closed under what the actor does to
-    the registry outside `handle_response` and `visit_closest`: nothing, removals, creations -/
-structure LateRel (R : List (Id × IterQuery) → List (Id × IterQuery) → Prop) : Prop where
+    the registry when it picks up an API message or does its maintenance: nothing, creations -/
+structure CreateRel (R : List (Id × IterQuery) → List (Id × IterQuery) → Prop) : Prop where
   refl : ∀ l, R l l
   trans : ∀ l1 l2 l3, R l1 l2 → R l2 l3 → R l1 l3
-  remove : ∀ l t, R l (alRemove l t)
   create : ∀ l t rid k seeds (b : Actor) tos now, alGet l t = none →
     (∀ x ∈ (seedQuery rid t k seeds).closestCandidates, x ∈ tos) →
     R l (alSet l t (b.visitAll (seedQuery rid t k seeds) tos now).2)
 
-section late
-variable {R : List (Id × IterQuery) → List (Id × IterQuery) → Prop} (hR : LateRel R)
+/-- … and under what it does outside `handle_response` and `visit_closest` altogether: removals too -/
+structure LateRel (R : List (Id × IterQuery) → List (Id × IterQuery) → Prop) : Prop extends CreateRel R where
+  remove : ∀ l t, R l (alRemove l t)
+
+section create
+variable {R : List (Id × IterQuery) → List (Id × IterQuery) → Prop} (hR : CreateRel R)
 include hR
 
-theorem LateRel.of_eq {l1 l2 : List (Id × IterQuery)} (h : l2 = l1) : R l1 l2 := by rw [h]; exact hR.refl l1
+theorem CreateRel.of_eq {l1 l2 : List (Id × IterQuery)} (h : l2 = l1) : R l1 l2 := by rw [h]; exact hR.refl l1
 
 theorem startLookup_rel (a : Actor) (k : GetKind) (t : Id) (extra : List Addr) (now : Nat) :
     R a.core.iter (a.startLookup k t extra now).core.iter := by
@@ -842,75 +845,6 @@ theorem populate_rel (a : Actor) (now : Nat) : R a.core.iter (a.populate now).co
   split
   · exact hR.refl _
   · exact get_rel hR a _ _ _ now
-
-theorem cleanupOneLookup_rel (acc : Core × Option Addr) (d : Id × List Node) :
-    R acc.1.iter (cleanupOneLookup acc d).1.iter := by
-  unfold cleanupOneLookup
-  split
-  · rename_i q _
-    have h : (updateAddressVotes (cacheQuery { acc.1 with iter := alRemove acc.1.iter d.1 } q d.2) q).1.iter
-        = alRemove acc.1.iter d.1 := by
-      rw [(updateAddressVotes_fields _ _).1, cacheQuery_iter]
-    split
-    · simp only; rw [h]; exact hR.remove _ _
-    · simp only; rw [h]; exact hR.remove _ _
-  · exact hR.refl _
-
-theorem cleanupDone_rel (c : Core) (di : List (Id × List Node)) (dp : List (Id × Option PutErr)) :
-    R c.iter (cleanupDone c di dp).1.iter := by
-  unfold cleanupDone
-  have h1 : ∀ (l : List (Id × List Node)) (acc : Core × Option Addr),
-      R acc.1.iter (l.foldl cleanupOneLookup acc).1.iter := by
-    intro l
-    induction l with
-    | nil => intro acc; exact hR.refl _
-    | cons d ds ih =>
-      intro acc
-      simp only [List.foldl_cons]
-      exact hR.trans _ _ _ (cleanupOneLookup_rel hR acc d) (ih _)
-  have h2 : ∀ (l : List (Id × Option PutErr)) (c' : Core), (l.foldl removePut c').iter = c'.iter := by
-    intro l
-    induction l with
-    | nil => intro c'; rfl
-    | cons d ds ih => intro c'; simp only [List.foldl_cons]; rw [ih]; rfl
-  simp only
-  rw [h2]
-  exact h1 di (c, none)
-
-/-- the second half of the tick, after `visit_closest` -/
-theorem finishTick_rel (a4 : Actor) (now : Nat) (dp0 : List (Id × Option PutErr)) :
-    R a4.core.iter (finishTick a4 now dp0).core.iter := by
-  unfold finishTick
-  generalize a4.doneLookups now = di
-  obtain ⟨s1, _⟩ := startPuts_core a4 now di dp0
-  generalize startPuts a4 now di dp0 = sp at s1
-  have h6 := cleanupDone_rel hR sp.1.core di sp.2
-  rw [s1] at h6
-  generalize cleanupDone sp.1.core di sp.2 = cd at h6
-  have hping : ∀ (b : Actor) (to : Option Addr), (b.pingOpt to now).core = b.core := by
-    intro b to; unfold pingOpt; split <;> rfl
-  have hrg : ∀ (b : Actor) (l : List (Id × List Node)), (b.releaseGetCallers l).core = b.core := by
-    intro b l
-    unfold releaseGetCallers
-    induction l generalizing b with
-    | nil => rfl
-    | cons d ds ih =>
-      simp only [List.foldl_cons]
-      rw [ih]
-      unfold releaseGetOne
-      split <;> rfl
-  have hrp : ∀ (b : Actor) (l : List (Id × Option PutErr)), (b.releasePutCallers l).core = b.core := by
-    intro b l
-    unfold releasePutCallers
-    induction l generalizing b with
-    | nil => rfl
-    | cons d ds ih =>
-      simp only [List.foldl_cons]
-      rw [ih]
-      unfold releasePutOne
-      split <;> rfl
-  rw [hrp, hrg, hping]
-  exact h6
 
 theorem put_rel (a : Actor) (spec : PutSpec) (extra : List Node) (now : Nat) :
     R a.core.iter (a.put spec extra now).1.core.iter := by
@@ -983,22 +917,97 @@ theorem maintenance_rel (a : Actor) (now : Nat) :
     exact h12
   · exact h12
 
+end create
+
+section late
+variable {R : List (Id × IterQuery) → List (Id × IterQuery) → Prop} (hR : LateRel R)
+include hR
+
+theorem cleanupOneLookup_rel (acc : Core × Option Addr) (d : Id × List Node) :
+    R acc.1.iter (cleanupOneLookup acc d).1.iter := by
+  unfold cleanupOneLookup
+  split
+  · rename_i q _
+    have h : (updateAddressVotes (cacheQuery { acc.1 with iter := alRemove acc.1.iter d.1 } q d.2) q).1.iter
+        = alRemove acc.1.iter d.1 := by
+      rw [(updateAddressVotes_fields _ _).1, cacheQuery_iter]
+    split
+    · simp only; rw [h]; exact hR.remove _ _
+    · simp only; rw [h]; exact hR.remove _ _
+  · exact hR.refl _
+
+theorem cleanupDone_rel (c : Core) (di : List (Id × List Node)) (dp : List (Id × Option PutErr)) :
+    R c.iter (cleanupDone c di dp).1.iter := by
+  unfold cleanupDone
+  have h1 : ∀ (l : List (Id × List Node)) (acc : Core × Option Addr),
+      R acc.1.iter (l.foldl cleanupOneLookup acc).1.iter := by
+    intro l
+    induction l with
+    | nil => intro acc; exact hR.refl _
+    | cons d ds ih =>
+      intro acc
+      simp only [List.foldl_cons]
+      exact hR.trans _ _ _ (cleanupOneLookup_rel hR acc d) (ih _)
+  have h2 : ∀ (l : List (Id × Option PutErr)) (c' : Core), (l.foldl removePut c').iter = c'.iter := by
+    intro l
+    induction l with
+    | nil => intro c'; rfl
+    | cons d ds ih => intro c'; simp only [List.foldl_cons]; rw [ih]; rfl
+  simp only
+  rw [h2]
+  exact h1 di (c, none)
+
+/-- the second half of the tick, after `visit_closest` -/
+theorem finishTick_rel (a4 : Actor) (now : Nat) (dp0 : List (Id × Option PutErr)) :
+    R a4.core.iter (finishTick a4 now dp0).core.iter := by
+  unfold finishTick
+  generalize a4.doneLookups now = di
+  obtain ⟨s1, _⟩ := startPuts_core a4 now di dp0
+  generalize startPuts a4 now di dp0 = sp at s1
+  have h6 := cleanupDone_rel hR sp.1.core di sp.2
+  rw [s1] at h6
+  generalize cleanupDone sp.1.core di sp.2 = cd at h6
+  have hping : ∀ (b : Actor) (to : Option Addr), (b.pingOpt to now).core = b.core := by
+    intro b to; unfold pingOpt; split <;> rfl
+  have hrg : ∀ (b : Actor) (l : List (Id × List Node)), (b.releaseGetCallers l).core = b.core := by
+    intro b l
+    unfold releaseGetCallers
+    induction l generalizing b with
+    | nil => rfl
+    | cons d ds ih =>
+      simp only [List.foldl_cons]
+      rw [ih]
+      unfold releaseGetOne
+      split <;> rfl
+  have hrp : ∀ (b : Actor) (l : List (Id × Option PutErr)), (b.releasePutCallers l).core = b.core := by
+    intro b l
+    unfold releasePutCallers
+    induction l generalizing b with
+    | nil => rfl
+    | cons d ds ih =>
+      simp only [List.foldl_cons]
+      rw [ih]
+      unfold releasePutOne
+      split <;> rfl
+  rw [hrp, hrg, hping]
+  exact h6
+
 /-- everything that happens to the registry after `visit_closest` until the end of the step -/
 theorem late_rel (a4 : Actor) (env : Env) (dp0 : List (Id × Option PutErr)) (msg : Option ApiMsg) :
     R a4.core.iter (((finishTick a4 env.now dp0).pickup env msg).maintenance env.now).core.iter :=
-  hR.trans _ _ _ (hR.trans _ _ _ (finishTick_rel hR a4 env.now dp0) (pickup_rel hR _ env msg)) (maintenance_rel hR _ env.now)
+  hR.trans _ _ _ (hR.trans _ _ _ (finishTick_rel hR a4 env.now dp0) (pickup_rel hR.toCreateRel _ env msg)) (maintenance_rel hR.toCreateRel _ env.now)
 
 end late
 
 /-! #### the descendant relation through the phases -/
 
 theorem iterRel_late : LateRel (IterRel D) :=
-  ⟨IterRel.refl D, fun _ _ _ h1 h2 => IterRel.trans h1 h2, IterRel.alRemove D,
+  ⟨⟨IterRel.refl D, fun _ _ _ h1 h2 => IterRel.trans h1 h2,
    fun l t rid k seeds b tos now _ _ => by
      have : (b.visitAll (seedQuery rid t k seeds) tos now).2
          = lrun (seedQuery rid t k seeds) [LOp.visitAddrs b tos now] := rfl
      rw [this]
-     exact IterRel.alSet_fresh D l t rid k seeds _ (by intro e s m h; simp at h)⟩
+     exact IterRel.alSet_fresh D l t rid k seeds _ (by intro e s m h; simp at h)⟩, IterRel.alRemove D⟩
 
 
 theorem handleResponse_iter (c : Core) (env : Env) (src : Addr) (m : Message) (hD : D env m src) :
@@ -1044,7 +1053,7 @@ theorem handleIncoming_iter (a : Actor) (env : Env) (handed : Option (Message ×
       obtain ⟨r1, _⟩ := handleRequest_cache a.core env src m.readOnly m.version req
       unfold handleIncomingRequest
       split
-      · have := populate_rel (iterRel_late D) (sendReply { a with core := (handleRequest a.core env src m.readOnly m.version req).1 } src m.tid
+      · have := populate_rel (iterRel_late D).toCreateRel (sendReply { a with core := (handleRequest a.core env src m.readOnly m.version req).1 } src m.tid
             (handleRequest a.core env src m.readOnly m.version req).2.1) env.now
         rw [sendReply_core] at this
         simp only at this
@@ -1148,15 +1157,11 @@ def AddsClosed (l l' : List (Id × IterQuery)) : Prop :=
   ∀ t q, alGet l' t = some q → alGet l t = some q ∨ Closed q
 
 theorem addsClosed_late : LateRel AddsClosed := by
-  refine ⟨fun l t q h => Or.inl h, ?_, ?_, ?_⟩
+  refine ⟨⟨fun l t q h => Or.inl h, ?_, ?_⟩, ?_⟩
   · intro l1 l2 l3 h12 h23 t q h
     rcases h23 t q h with h2 | hc
     · exact h12 t q h2
     · exact Or.inr hc
-  · intro l k t q h
-    by_cases htk : t = k
-    · subst htk; rw [alGet_alRemove_self] at h; cases h
-    · rw [alGet_alRemove_other l k t htk] at h; exact Or.inl h
   · intro l k rid kind seeds b tos now _ hsup t q h
     by_cases htk : t = k
     · subst htk
@@ -1165,6 +1170,10 @@ theorem addsClosed_late : LateRel AddsClosed := by
       rw [← h]
       exact Or.inr (visit_superset_closes b _ tos now hsup)
     · rw [alGet_alSet_other l k t _ htk] at h; exact Or.inl h
+  · intro l k t q h
+    by_cases htk : t = k
+    · subst htk; rw [alGet_alRemove_self] at h; cases h
+    · rw [alGet_alRemove_other l k t htk] at h; exact Or.inl h
 
 def AllClosed (l : List (Id × IterQuery)) : Prop := ∀ t q, alGet l t = some q → Closed q
 
@@ -1286,9 +1295,9 @@ theorem create_iter (D : Env → Message → Addr → Prop) (cfg : NodeConfig) (
   unfold Actor.create
   simp only
   constructor
-  · exact maintenance_rel (iterRel_late D) _ now
+  · exact maintenance_rel (iterRel_late D).toCreateRel _ now
   · intro t q hq
-    rcases maintenance_rel addsClosed_late _ now t q hq with h | h
+    rcases maintenance_rel addsClosed_late.toCreateRel _ now t q hq with h | h
     · cases h
     · exact h
 
